@@ -610,6 +610,60 @@ func registerSchedStubs(sh *Shared) {
 		fr.i.hbRelease(fr, args[0])
 		return nil
 	})
+	// function-style atomics on plain integer cells (sync/atomic.AddUint64(&x, d) etc.)
+	for _, tn := range []string{"Int32", "Int64", "Uint32", "Uint64", "Uintptr"} {
+		tn := tn
+		reg("sync/atomic.Load"+tn, func(fr *frame, args []value) value {
+			fr.i.syncPoint(fr, "atomic-load")
+			fr.i.hbAcquire(fr, args[0])
+			return *(args[0].(*value))
+		})
+		reg("sync/atomic.Store"+tn, func(fr *frame, args []value) value {
+			fr.i.syncPoint(fr, "atomic-store")
+			*(args[0].(*value)) = args[1]
+			fr.i.hbRelease(fr, args[0])
+			return nil
+		})
+		reg("sync/atomic.Add"+tn, func(fr *frame, args []value) value {
+			fr.i.syncPoint(fr, "atomic-add")
+			fr.i.hbAcquire(fr, args[0])
+			p := args[0].(*value)
+			var nv value
+			if isSym(*p) || isSym(args[1]) {
+				var t types.Type = types.Typ[map[string]types.BasicKind{"Int32": types.Int32, "Int64": types.Int64, "Uint32": types.Uint32, "Uint64": types.Uint64, "Uintptr": types.Uintptr}[tn]]
+				nv = fr.i.symBinop(fr, token.ADD, t, *p, args[1])
+			} else {
+				var t types.Type = types.Typ[map[string]types.BasicKind{"Int32": types.Int32, "Int64": types.Int64, "Uint32": types.Uint32, "Uint64": types.Uint64, "Uintptr": types.Uintptr}[tn]]
+				nv = binop(token.ADD, t, *p, args[1])
+			}
+			*p = nv
+			fr.i.hbRelease(fr, args[0])
+			return nv
+		})
+		reg("sync/atomic.Swap"+tn, func(fr *frame, args []value) value {
+			fr.i.syncPoint(fr, "atomic-swap")
+			fr.i.hbAcquire(fr, args[0])
+			p := args[0].(*value)
+			old := *p
+			*p = args[1]
+			fr.i.hbRelease(fr, args[0])
+			return old
+		})
+		reg("sync/atomic.CompareAndSwap"+tn, func(fr *frame, args []value) value {
+			fr.i.syncPoint(fr, "atomic-cas")
+			fr.i.hbAcquire(fr, args[0])
+			p := args[0].(*value)
+			if isSym(*p) || isSym(args[1]) {
+				fr.i.ex.unsupported("CompareAndSwap on a symbolic cell")
+			}
+			if *p == args[1] {
+				*p = args[2]
+				fr.i.hbRelease(fr, args[0])
+				return true
+			}
+			return false
+		})
+	}
 	reg(mainPath+".concRounds", func(fr *frame, args []value) value { return 1 })
 	for _, n := range []string{"barrierReset", "barrierWait", "barrierOpen", "hLock", "hUnlock"} {
 		reg(mainPath+"."+n, func(fr *frame, args []value) value { return nil })
